@@ -411,10 +411,14 @@ def main(argv=None):
         ctx = Ctx(prop_id, run_tier, seed, lean)
         run_property(mod, ctx, log)
         escalated = False
-        if (ctx.disagreements or proof_broken) and not ctx.violations and run_tier == 'quick':
+        _open = {f['key'] for f in load_findings()
+                 if f.get('property') == prop_id and f.get('status') == 'open'}
+        _unknown_now = [v for v in ctx.violations if v['key'] is None or v['key'] not in _open]
+        if (ctx.disagreements or proof_broken) and not _unknown_now and run_tier == 'quick':
             log('proof obligation or correspondence broken; escalating the search to the thorough budget')
             ctx2 = Ctx(prop_id, 'thorough', seed + 1, lean, escalated=True)
             ctx2.disagreements = list(ctx.disagreements)
+            ctx2.violations = list(ctx.violations)
             run_property(mod, ctx2, log)
             ctx2.evaluations += ctx.evaluations
             ctx2.distinct |= ctx.distinct
